@@ -282,6 +282,29 @@ PLANS = {
                                              "acceptance rule ('>' instead of '>='): only outcomes that differ from BOTH the correct rule "
                                              "and that rule are new violations"],
     },
+    "C06": lambda tier: {
+        "level": "fault_enumeration",
+        "stages": [main_stage(60, 300, tier, death_is_violation=True),
+                   main_stage(60, 300, tier, build="rel", name="rel", death_is_violation=True),
+                   dict(main_stage(30, 30, tier, name="d24probe", death_is_violation=True, shards=1), abort_probe="D24")],
+        "require": ["sink_fault_points", "dictionaries_with_every_failure_offset_enumerated", "mutated_inputs", "inputs_accepted",
+                    "inputs_rejected_with_error", "accepted_dictionaries_loaded", "analyses_with_accepted_dictionaries", "probe_scenarios",
+                    "rel.sink_fault_points", "rel.mutated_inputs"],
+        "rule": "(b, the fault enumeration) for every 4th generated dictionary the output sink is made to fail after k bytes for EVERY k in "
+                "0..len (dictionaries <= 4 KiB: exhaustive; larger: 300 sampled offsets + edges), once with a plain error and once with a short "
+                "write followed by an error: compile must return Err and must not panic. (a) 10 structure-aware mutations per generated "
+                "(matrix, lexicon): dropped / duplicated / swapped fields, truncated rows, non-numeric / out-of-range numbers, connection ids at "
+                "and beyond the matrix size, negative ids, dangling / self / U references, 127-300 array items, strings of 32767-70000 bytes, bad "
+                "\\u escapes, NUL, empty surface, bad split modes, malformed inline splits, empty / blank / header-only / random-byte matrix, "
+                "matrix lines outside the declared size, CRLF, BOM, empty lexicon, no indexed row, random bytes, invalid UTF-8, unbalanced "
+                "quotes, 2-300 homographs; totality under a panic hook in a debug-assertion and a release build; inputs that are invalid in a "
+                "way the statement names must be rejected. (c) every accepted dictionary is loaded and texts made of its keys are analysed in "
+                "modes A/B/C under the bounds hooks and the partition oracle. distinct_nontrivial = distinct mutated inputs that were handled "
+                "correctly + dictionaries whose sink offsets were enumerated",
+        "assumptions": COMMON_ASSUMPTIONS + ["known findings D9 (split units not covering the key), D18 (user-dictionary dic_form) and D24 (stack overflow "
+                                             "for a 32,767-byte key; runs alone in its own process) are exercised only by labelled probes",
+                                             "mutations that disturb split references are analysed in mode C only"],
+    },
 }
 
 
